@@ -25,6 +25,10 @@ CLAIMED = {
    text="Coq theorems for every byte string: an accepted range is ordered and within MAX_RANGE (no wrap-around), ranges larger than the limit are refused however large the numbers, unbalanced/reversed/non-numeric input fails, the parse never reaches an out-of-contract state, and the number of hosts is bounded by MAX_RANGE per byte typed. Correspondence: labelled malformed inputs + grammar-biased random strings + words around the fixed buffers, implementation under ASan/UBSan with a per-case time limit.",
    note=COMMON_NOTE + "libc strtoul modelled incl. saturation; memory safety of the C itself is observed by ASan, not proved.",
    technique="Coq proof on the parser model + sanitizer-backed correspondence check"),
+ "C08": dict(engine="out+sched+exec", section="6 C08",
+   text="Coq theorems: the -S aggregation equals max(max code, 254 if any host failed) for every outcome vector and is invariant under permutation; it is 0 iff every command ran and succeeded; a signalled child never counts as success; without -S the status is 0. Tied to /repo three ways: _extract_rc and the whole output path on marker lines (unit harness vs extracted model), the aggregation through the whole program under the controlled scheduler over outcome vectors in all orders, and real children through the exec transport.",
+   note=COMMON_NOTE + "atoi modelled for codes that fit an int; in-band status requires the remote shell to survive (protocol limitation).",
+   technique="Coq proof (aggregation = max, order independence) + three correspondence runs"),
 }
 
 checks, na = [], []
@@ -45,6 +49,9 @@ m = {"version": 1, "setup_cmd": "./setup.sh",
                "baseline_off_cmd": "make -C /repo check", "source_commits": [], "add_only": True},
      "engines": [
          {"name": "hl", "path": "harness/hl_harness.c", "serves_properties": ["C01", "C14", "C15"], "kind_free_text": "hostlist.c #included into an ASan/UBSan line-protocol harness; extracted Coq model runner ocaml/hl_runner.ml"},
+         {"name": "out", "path": "harness/dsh_unit_harness.c", "serves_properties": ["C05", "C06", "C08"], "kind_free_text": "dsh.c #included, per-host output path driven by a scripted descriptor with stdio calls captured (read/close/fputs wrapped at link time); extracted Coq model runner ocaml/dsh_runner.ml"},
+         {"name": "sched", "path": "sched/sched.c", "serves_properties": ["C03", "C04", "C07", "C08", "C20"], "kind_free_text": "the whole unmodified pdsh program under a token scheduler interposed with -Wl,--wrap on pthread_*/poll/read/sleep/time/fputs/exit; scripted transport module sched/simrcmd.c loaded by pdsh's own loader; traces validated by the extracted Coq transition system"},
+         {"name": "exec", "path": "lib/realeng.py", "serves_properties": ["C08"], "kind_free_text": "the real pdsh binary rebuilt out of tree with a scratch module directory, real children through the exec module"},
          {"name": "cbuf", "path": "harness/cbuf_harness.c", "serves_properties": ["C13"], "kind_free_text": "cbuf.c #included with read(2) scripted; extracted Coq model runner ocaml/cbuf_runner.ml"}],
      "checks": checks, "not_applicable": na,
      "notes": "Genuine defects repaired in /repo are listed in KNOWN_FINDINGS.json (status fixed) with their witnesses under corpus/, which every run replays first."}
